@@ -1258,6 +1258,23 @@ theorem legacy_cycle_leaks :
     simp at hc; subst hc
     exact ⟨0, by simp, by simp [kidsOf, mutate, alloc, empty, List.getD]⟩
 
+/-- **C14 (stack machine).**  Every program over the five shapes of heap traffic the generator
+performs — `Stack::push` of a new cell referencing existing ones, DUP, pop, in-place update of a cell
+that is on the stack (to reference anything, itself included), and auxiliary cells that never reach
+the stack (memo entries, `Global` placeholders, argument tuples) — keeps: every edge that does not
+point to an older cell starts at an arena cell, and every cell on the stack is an arena cell.  That
+the Rust performs only these shapes is the translator's syntactic check I1–I3. -/
+theorem machine_inv (steps : List Step) : MInv (run steps) := run_inv steps
+
+/-- … hence, whatever the generator did, after `reset` / `Drop` no set of cells keeps itself alive -/
+theorem machine_reclaimed (steps : List Step) (S : List Nat) (hne : S ≠ [])
+    (hall : ∀ c ∈ S, ∃ c' ∈ S, c ∈ kidsOf (release (run steps).h) c') : False :=
+  all_reclaimed (run steps).h (run_inv steps).1 S hne hall
+
+/-- non-vacuity: the program `push [] ; dup ; mutate 0 [0]` (a list appended to itself) really builds a
+cycle, and it is still reclaimed after release -/
+example : kidsOf (run [.push [], .dup, .mutate 0 [0]]).h 0 = [0] := by decide
+
 /-- the translated list of in-place mutation sites: every receiver is a stack cell -/
 theorem mutation_sites_on_stack_cells :
     ∀ s ∈ Gen.mutationSites, s.2.2 = "peek" ∨ s.2.2 = "pop" := by decide
